@@ -1,7 +1,7 @@
 def register(PROPS, HARNESS_PKGS):
     def g(**kw):
         p = {"Profiles": '{"auto", "streaming"}', "CTs": '{"text/event-stream"}', "Kinds": '{"flow"}',
-             "ChunkSizes": "{1, 1024}", "StallPoints": '{"headers", "chunk1"}'}
+             "ChunkSizes": "{1, 1024}", "StallPoints": '{"prehdr", "headers", "chunk1"}'}
         p.update(kw)
         return {"module": "StreamGen", "cfg": "Stream_gen.cfg", "params": p}
     allct = '{"text/event-stream", "application/x-ndjson", "application/json", "application/octet-stream"}'
